@@ -10,6 +10,7 @@ import (
 	"strings"
 	"sync"
 
+	jsonv2 "github.com/go-json-experiment/json"
 	"github.com/go-json-experiment/json/jsontext"
 
 	"verif/internal/enum"
@@ -21,6 +22,23 @@ import (
 type Op struct {
 	M   refjson.EncOp
 	Tok jsontext.Token
+	ME  *meValue // if set: json.MarshalEncode(enc, ME.v) instead of WriteValue (the model sees the raw text M.Text)
+}
+
+type meValue struct{ v any }
+
+// me builds an op that marshals a Go value into the encoder; its model is WriteValue of the value's JSON text.
+func me(label string, v any, text string) Op {
+	return Op{M: refjson.EncOp{Raw: true, Text: text, Label: "ME:" + label}, ME: &meValue{v}}
+}
+
+// meOps are MarshalEncode calls whose implementation has fast paths that append to the buffer directly.
+func meOps() []Op {
+	return []Op{
+		me("[]any{}", []any{}, "[]"), me("map[string]any{}", map[string]any{}, "{}"), me("[]int{}", []int{}, "[]"), me("map[string]int{}", map[string]int{}, "{}"),
+		me("any([]any{})", any([]any{}), "[]"), me(`"s"`, "s", `"s"`), me("nil", nil, "null"), me("[]any{1}", []any{1.0}, "[1]"), me("struct{}", struct{}{}, "{}"),
+		me(`map[string]any{"a":[]}`, map[string]any{"a": []any{}}, `{"a":[]}`),
+	}
 }
 
 func tok(label string, t jsontext.Token, kind byte, str, num string, invalid bool) Op {
@@ -84,6 +102,8 @@ func OptSets() []OptSet {
 		{"AllowInvalidUTF8", []jsontext.Options{jsontext.AllowInvalidUTF8(true)}, refjson.FmtOpts{AllowUTF8: true}},
 		{"Indent+Prefix", []jsontext.Options{jsontext.WithIndentPrefix(" "), jsontext.WithIndent("  "), jsontext.SpaceAfterColon(false)}, refjson.FmtOpts{Multiline: true, Prefix: " ", Indent: "  "}},
 		{"SpaceAfterColon+Comma", []jsontext.Options{jsontext.SpaceAfterColon(true), jsontext.SpaceAfterComma(true)}, refjson.FmtOpts{SpaceColon: true, SpaceComma: true}},
+		{"SpaceAfterComma", []jsontext.Options{jsontext.SpaceAfterComma(true)}, refjson.FmtOpts{SpaceComma: true}},
+		{"SpaceAfterColon", []jsontext.Options{jsontext.SpaceAfterColon(true)}, refjson.FmtOpts{SpaceColon: true}},
 		{"EscapeForHTML+JS", []jsontext.Options{jsontext.EscapeForHTML(true), jsontext.EscapeForJS(true)}, refjson.FmtOpts{HTML: true, JS: true}},
 		{"PreserveRawStrings", []jsontext.Options{jsontext.PreserveRawStrings(true)}, refjson.FmtOpts{Preserve: true}},
 		{"PreserveRawStrings+EscapeForHTML+AllowInvalidUTF8", []jsontext.Options{jsontext.PreserveRawStrings(true), jsontext.EscapeForHTML(true), jsontext.AllowInvalidUTF8(true)}, refjson.FmtOpts{Preserve: true, HTML: true, AllowUTF8: true}},
@@ -114,6 +134,9 @@ func (s *sys) reset(o *OptSet) {
 }
 
 func (s *sys) apply(op *Op) error {
+	if op.ME != nil {
+		return jsonv2.MarshalEncode(s.enc, op.ME.v)
+	}
 	if op.M.Raw {
 		return s.enc.WriteValue(jsontext.Value(op.M.Text))
 	}
@@ -354,6 +377,8 @@ func Run(r *evid.Run) {
 	}
 	wide(r)
 	deep(r)
+	rawViews(r)
+	marshalEncodeOps(r)
 	r.States.Add(int64(len(states)))
 	r.Sample(Case{OptSet: "default", Ops: labels(alpha, []int{3, 1, 2, 4})})
 	r.Sample(Case{OptSet: "default", Ops: labels(alpha, []int{3, 1, 3, 7, 2})})
